@@ -14,10 +14,10 @@ func init() {
 	register(&PropertyDef{
 		ID:    "C02",
 		Title: "Receiver ratchet tolerates any arrival order and duplication of messages",
-		Explanation: "Decides the structural clauses of the receiver ratchet from the SSA of pkg/secretstore: (D1) the stored chain key only moves forward (abstract evaluation of the updater over {new<stored,=,>}); (D2) registration is once-only: every write of registration (precomputed window, chain key) is dominated by the 'no chain key stored' outcome of the lookup, and the 'already registered' outcome returns success without any write; (D3) the window created at registration: the precompute loop, evaluated abstractly with window sizes 1..3, derives exactly window-size keys and returns the chain key at counter c+window, the window is persisted before returning, and the chain key stored by registration is that returned value; (D4) slide by one per newly opened message: the post-decryption step writes exactly one next key outside any loop, for the same counter value (stored+1) that it puts in the chain key it returns; (D5) re-reads keep working: key saved by CID before the precomputed key is deleted, the deleted key is the one at the opened header's counter, and the by-CID lookup is tried first with the precomputed lookup only on its miss side, keyed by the header's device and counter. Not decided: the window inequality for all permutations with repetition (loop arithmetic over runtime history), one-wayness of the KDF.",
+		Explanation: "Decides the structural clauses of the receiver ratchet from the SSA of pkg/secretstore: (D1) the stored chain key only moves forward (abstract evaluation of the updater over {new<stored,=,>}); (D2) registration is once-only: every write of registration (precomputed window, chain key) is dominated by the 'no chain key stored' outcome of the lookup, and the 'already registered' outcome returns success without any write; (D3) the window created at registration: the precompute loop, evaluated abstractly with window sizes 1..3, derives exactly window-size keys and returns the chain key at counter c+window, the window is persisted before returning, and the chain key stored by registration is that returned value; (D4) slide by one per newly opened message: the post-decryption step writes exactly one next key outside any loop, for the same counter value (stored+1) that it puts in the chain key it returns; (D5) re-reads keep working: key saved by CID before the precomputed key is deleted, the deleted key is the one at the opened header's counter, and the by-CID lookup is tried first with the precomputed lookup only on its miss side, keyed by the header's device and counter; (D6) the 'not registered yet' test that guards registration's writes is made under the same message lock as the writes (no test-then-lock-then-write). Not decided: the window inequality for all permutations with repetition (loop arithmetic over runtime history), one-wayness of the KDF.",
 		Trusted:     []string{"go/ssa (x/tools v0.29.0)", "HKDF one-wayness", "effects identified by the namespace constants of pkg/secretstore"},
 		Assumptions: []string{"the evaluator's window sizes 1..3 are representative of the loop's counting form (the loop body is the same for every size)"},
-		Floors:      map[string]int{"D1": 4, "D2": 3, "D3": 4, "D4": 2, "D5": 4},
+		Floors:      map[string]int{"D1": 4, "D2": 3, "D3": 4, "D4": 2, "D5": 4, "D6": 2},
 		Run:         runC02,
 	})
 }
@@ -111,6 +111,36 @@ func runC02(c *Ctx) {
 			}
 			c.check(guard(s.Instr.(ssa.Instruction)), "D2", fnName(regFn)+"+write:"+what+"@"+calleeLabel(s), posOf(s.Instr),
 				"write happens only when no chain key is stored for this device", "registration writes the "+what+" even when a chain key is already stored: a repeated or older announcement rewinds the ratchet")
+		}
+		// D6: the test and the writes are one critical section. Known-bad shape: the write is
+		// made under the message lock taken in this function, but the "not registered yet" test
+		// that guards it was made before the lock was taken and is not repeated under it: two
+		// registrations of one device both pass the test, and the second one overwrites (rewinds)
+		// what the first one and later opens have written.
+		class := messageLockClass(w)
+		li := w.locks()
+		for _, s := range ei.sitesIn(regFn) {
+			if !(s.has(putChain) || s.has(putPre)) || class == "" {
+				continue
+			}
+			in := s.Instr.(ssa.Instruction)
+			if !li.localOf(regFn)[in].holds(class, 'W') {
+				continue // not locked here: the caller's lock (if any) covers test and write alike
+			}
+			okAtomic := false
+			for _, l := range ei.sitesWith(regFn, getChain) {
+				v := errVerdict(l.Instr)
+				if v == nil || !l.pureLookup() || !li.localOf(regFn)[l.Instr.(ssa.Instruction)].holds(class, 'W') {
+					continue
+				}
+				for _, e := range edgesOfVerdict(v).Reject {
+					if edgeDominates(e, in.Block()) {
+						okAtomic = true
+					}
+				}
+			}
+			c.check(okAtomic, "D6", fnName(regFn)+"+atomic-register@"+calleeLabel(s), posOf(s.Instr),
+				"the 'not registered yet' test guarding this write is made under the same lock as the write", "registration tests 'already registered?' before taking "+class+" and writes after taking it without testing again: a concurrent second registration of the same device overwrites the ratchet state (rewind)")
 		}
 		// the hit side returns success without writes
 		for _, g := range ei.sitesWith(regFn, getChain) {
